@@ -646,6 +646,10 @@ func plyResBytes(b []byte, err error) string {
 
 var plySkipAsciiWriteLine bool
 
+// the two proposed witness ops for the ASCII float text observations (ascii_float32_tie_witness,
+// ascii_out_of_range_witness) are emitted only once they are listed as known findings
+const plyEmitProposedWitnesses = false
+
 // user scalar "alpha" / "a" / "diffuse_alpha" written with the SAME scalar type as a colour 3-writer with the matching
 // names (by a custom scalar writer, or as float by WriteUnspecifiedProperties): claimed together as one 4-vector
 func plyAlphaCaptured(g plyGenMesh, w plyWCfg) bool {
@@ -860,15 +864,14 @@ func runC04(c *Ctx) {
 	larges := []large{{4096, false, 0}, {8192, true, 2200}, {4097, false, 0}, {5000, true, 2200}}
 	if c.Tier == "thorough" {
 		larges = append(larges, large{4095, false, 0}, large{4096, true, 1400}, large{8193, false, 0}, large{10001, true, 3500},
-			large{4100, true, 4100}, large{30000, false, 0}, large{8191, true, 1000}, large{8192, false, 0}, large{12288, true, 4096},
-			large{65535, false, 0}, large{65536, false, 0}, large{65536, true, 3000}, large{65537, false, 0})
+			large{4100, true, 4100}, large{30000, false, 0}, large{8191, true, 1000}, large{8192, false, 0}, large{12288, true, 4096})
 	}
 	for i, l := range larges {
 		g := c.plyMeshLarge(l.nv, l.tri, l.nf)
 		if i%2 == 0 || i < 2 || c.Tier == "thorough" {
 			c.plyCaseEP(g, plyWCfg{isDefault: true}, plyFormats, "c04.holds.encodings_agree", false)
 		}
-		if i%2 == 1 || c.Tier == "thorough" {
+		if i%2 == 1 || (c.Tier == "thorough" && l.nv <= 20000) { // (the biggest ones: default writer only, for run time)
 			c.plyCaseEP(g, c.plyCfg(g), plyFormats, "c04.holds.encodings_agree", false)
 		}
 	}
@@ -902,6 +905,84 @@ func runC04(c *Ctx) {
 				rs, _ := plyImplReadMesh(data)
 				c.Emit("c04.read", plyHx(data), rs)
 				c.Emit("c04.holds.roundtrip", w.tok(f)+" "+plyMeshTok(m)+" "+rs, "true")
+			}
+		}
+		// KNOWN FINDING C04-w-name-before-group-other-type (witness, expected false): a custom scalar writer for a user
+		// attribute named like the 4th member of a colour group (a / alpha / diffuse_alpha) standing BEFORE the colour
+		// 3-writer of ANOTHER scalar type.  The group reader takes the group's type from the first member in header order
+		// (the scalar), finds r g b "mixed" and claims nothing: Color comes back as three scalars r, g, b.  Root cause of the
+		// known finding C08 mixed-type-group, reached through the library's own writer.
+		{
+			m := modeling.NewMesh(modeling.PointTopology, []int{0, 1}).
+				SetFloat3Attribute(modeling.PositionAttribute, pos[:2]).
+				SetFloat3Attribute(modeling.ColorAttribute, []vector3.Float64{vector3.New(1., 0.5, 0.), vector3.New(0., 1., 0.25)}).
+				SetFloat1Attribute("a", []float64{0.5, 0.75})
+			wc := plyWCfg{props: []plyWProp{
+				{"a", []string{"a"}, ply.Float},
+				{modeling.ColorAttribute, []string{"r", "g", "b"}, ply.Double},
+				{modeling.PositionAttribute, []string{"x", "y", "z"}, ply.Float}}}
+			f := ply.BinaryLittleEndian
+			data, err := wc.write(m, f)
+			c.Emit("c04.write", wc.tok(f)+" "+plyMeshTok(m), plyResBytes(data, err))
+			rs, _ := plyImplReadMesh(data)
+			c.Emit("c04.read", plyHx(data), rs)
+			c.Emit("c04.holds.w_name_before_group_witness", wc.tok(f)+" "+plyMeshTok(m)+" "+rs, "true")
+		}
+		// witness (expected false; reported): the same kind of scalar written with the SAME type as a custom float colour
+		// 3-writer is claimed together with it as ONE 4-vector: Color comes back as a Float4 (w = the scalar), the Float3
+		// Color and the scalar attribute are gone — the data moved to another arity.  (With the default writer the colour is
+		// `uchar`, the scalar `float` and stands after it: the reader falls back to the 3-vector, corpus case above.)
+		{
+			m := modeling.NewMesh(modeling.PointTopology, []int{0, 1}).
+				SetFloat3Attribute(modeling.PositionAttribute, pos[:2]).
+				SetFloat3Attribute(modeling.ColorAttribute, []vector3.Float64{vector3.New(1., 0.5, 0.), vector3.New(0., 1., 0.25)}).
+				SetFloat1Attribute("alpha", []float64{0.5, 0.75})
+			wc := plyWCfg{unspecified: true, props: []plyWProp{
+				{modeling.PositionAttribute, []string{"x", "y", "z"}, ply.Float},
+				{modeling.ColorAttribute, []string{"red", "green", "blue"}, ply.Float}}}
+			f := ply.BinaryLittleEndian
+			data, err := wc.write(m, f)
+			c.Emit("c04.write", wc.tok(f)+" "+plyMeshTok(m), plyResBytes(data, err))
+			rs, _ := plyImplReadMesh(data)
+			c.Emit("c04.read", plyHx(data), rs)
+			c.Emit("c04.holds.w_name_captured_by_group_witness", wc.tok(f)+" "+plyMeshTok(m)+" "+rs, "true")
+		}
+		// OBSERVATIONS about the ASCII float text (reported; model and implementation are tied on them, the proposed
+		// witness ops are emitted once the coordinator lists them — plyEmitProposedWitnesses):
+		// (1) a `float` property whose value lies EXACTLY half-way between two adjacent float32 values: the shortest text
+		//     lies on one side of the tie, ParseFloat(·, 32) rounds the TEXT: ASCII reads back 1+2^-23, binary float32(v) = 1;
+		// (2) a finite value beyond float32 range: ASCII prints it in full, ParseFloat(·, 32) reports "value out of range"
+		//     and the written file does not load; binary stores ±Inf.
+		{
+			wc := plyWCfg{props: []plyWProp{{modeling.PositionAttribute, []string{"x", "y", "z"}, ply.Float}}}
+			for k, v := range []float64{1 + math.Ldexp(1, -24), 1e39} {
+				m := modeling.NewMesh(modeling.PointTopology, []int{0}).
+					SetFloat3Attribute(modeling.PositionAttribute, []vector3.Float64{vector3.New(v, 2., 3.)})
+				backs := []string{}
+				asciiRs := ""
+				for _, f := range plyFormats {
+					data, err := wc.write(m, f)
+					if f != ply.ASCII { // (Go prints the shortest text, the model the exact expansion: no byte tie in ASCII)
+						c.Emit("c04.write", wc.tok(f)+" "+plyMeshTok(m), plyResBytes(data, err))
+					}
+					rs, _ := plyImplReadMesh(data)
+					c.Emit("c04.read", plyHx(data), rs)
+					backs = append(backs, rs)
+					if f == ply.ASCII {
+						asciiRs = rs
+					}
+				}
+				if k == 0 {
+					c.Note("observation:ascii-float32-tie")
+					if plyEmitProposedWitnesses {
+						c.Emit("c04.holds.ascii_float32_tie_witness", strings.Join(backs, " "), "true")
+					}
+				} else {
+					c.Note("observation:ascii-out-of-float32-range")
+					if plyEmitProposedWitnesses {
+						c.Emit("c04.holds.ascii_out_of_range_witness", wc.tok(ply.ASCII)+" "+plyMeshTok(m)+" "+asciiRs, "true")
+					}
+				}
 			}
 		}
 		// fixed by 858df3c, kept as corpus cases: a property name that is not a single word, or used twice, makes Write
